@@ -32,7 +32,10 @@ pub fn c09(out: &mut Out, ex: &mut Exec, seed: u64, thorough: bool) {
             let devsame = field(prev, "kb") == field(cur, "kb") && field(prev, "ds") == field(cur, "ds");
             let bad: Vec<u16> = if res == "err:acv" || res == "err:priv" {
                 out.hist.hit("user_violation_reported");
-                addrs.iter().copied().filter(|a| *a != 0xFFF0).collect()
+                // under real traps the violation is vectored: the entry swaps the stacks and pushes PSR and PC at SSP-1, SSP-2;
+                // when SSP is garbage (e.g. xFFFD after an earlier swap) a push can itself fault and the step still ends in
+                // the error, with those supervisor-stack cells written — that is part of the vectoring, not of the user's access
+                addrs.iter().copied().filter(|a| *a != 0xFFF0 && !(o.real && (*a == ssp0.wrapping_sub(1) || *a == ssp0.wrapping_sub(2)))).collect()
             } else if psr1 & 0x8000 == 0 {
                 out.hist.hit("user_to_supervisor_entry");
                 addrs.iter().copied().filter(|a| *a != 0xFFF0 && *a != ssp0.wrapping_sub(1) && *a != ssp0.wrapping_sub(2)).collect()
